@@ -1,5 +1,7 @@
 """Filter-guard acceptance (FGA) and index-space (IST) obligations shared by C01, C03, C04, C07, C10, C11, C14."""
 from .. import AnalysisBroken
+import os
+
 from ..nnabs import (BLOCK, CALLABLE, FINITE, HAM, HAMREP, INF, LEV, MOD, MODES, NN, fold, is_call, is_mcall, lits, simplify)
 from ..rules import where_of
 from ..terms import FALSE, NONE, TRUE, const, get_arg, head, is_const, show, strip, strip_all, subst, walk
@@ -67,6 +69,13 @@ def classify(nn, site, atom, pol, dinfo):
         if op in ("in", "notin"):
             if nn.map_info(q, y) is not None and ((op == "in") == pol):
                 return ("struct", "key-present")
+            # "already handled" memo:  if (a, b) in seen: continue
+            if head(y) in ("after", "phi", "mut", "alloc", "set") or is_call(y, "builtins.set"):
+                parts = list(x[1]) if head(x) == "tuple" else [x]
+                if parts and all(nn.idx_space(q, p_) is not None for p_ in parts):
+                    return ("struct", "position-memo")       # a pair of positions is examined once: nothing is lost
+                if parts and any(nn.elem_of(q, p_) is not None for p_ in parts):
+                    return ("valuememo", show(x, 60))
             return ("unknown", "membership test outside the lemma table")
     if h == "or" and pol:
         # (not flag) or i != j   ==   not (flag and i == j)
@@ -161,11 +170,18 @@ def check_site(r, rule, nn, site, mode, spaceA, spaceB, self_policy, equal_lengt
             selfs.append(c)
         elif c[0] == "lenfilter":
             lenf.append(c)
+        elif c[0] == "valuememo":
+            rep.ob(rule + "-FGA", con, False, "pairs are examined per pair of positions (equal sequences at different positions are distinct pairs)", where,
+                   expected="a memo keyed by positions, or none", found=f"already-seen test keyed by sequence values: {c[1]}", key=f"{K} value memo")
         elif c[0] == "unknown":
             unknown.append((atom, pol, c[1]))
     for kind, T in dinfo["implied"]:
         thr.append(("thr", {"kind": kind, "ops": dinfo["ops"], "implied": True}, "le", T))
     for atom, pol, why in unknown:
+        if not os.environ.get("PRSA_UNKNOWN_GUARD_VIOLATION"):
+            # a guard the lemma table cannot classify may or may not drop a neighbour: that is not evidence of a defect
+            rep.require(False, f"{q}:{site.line}: guard {'' if pol else 'not '}{show(atom, 80)} is outside the lemma table ({why}); whether it drops a neighbour cannot be decided [{rule}-FGA]")
+            continue
         rep.ob(rule + "-FGA", con, False, f"skip guard without soundness lemma: {why}", where, expected="threshold / self-exclusion / structural guard of the lemma table (DESIGN A.5)",
                found=("" if pol else "not ") + show(atom, 120), key=f"{K} unknown guard {show(atom, 80)}")
     for c in lenf:
@@ -233,9 +249,9 @@ def check_site(r, rule, nn, site, mode, spaceA, spaceB, self_policy, equal_lengt
 def _keyed_by_unknown_source(nn, site):
     """B is read from a dictionary keyed by the sequence itself, and the key iterates something that is not _generate_neighbors(...).items()."""
     b = strip(site.b)
-    if head(b) in ("iter", "citer") and head(strip(b[-1])) == "sub":
-        key = strip(strip(b[-1])[2])
-        mi = nn.map_info(site.q, strip(b[-1])[1])
+    if head(b) in ("iter", "citer") and head(uncopy(b[-1])) == "sub":
+        key = strip(uncopy(b[-1])[2])
+        mi = nn.map_info(site.q, uncopy(b[-1])[1])
         if mi and mi["key"] == ("elem",) and ((head(key) == "item" and head(strip(key[1])) in ("iter", "citer")) or head(key) in ("iter", "citer")):
             if _ball_of_key(key) is None:
                 site.extra["key_source"] = show(key, 60)
@@ -248,6 +264,14 @@ def ops_match(nn, site, dx, sa, sb):
     return ok
 
 
+def uncopy(t):
+    """list(x) / tuple(x) / sorted(x) / set(x) of a collection of positions holds the same positions."""
+    t = strip(t)
+    while is_call(t) and head(strip(t[1])) == "glob" and strip(t[1])[1] in ("builtins.list", "builtins.tuple", "builtins.sorted", "builtins.set", "builtins.frozenset") and len(t[2]) == 1:
+        t = strip(t[2][0])
+    return t
+
+
 def value_matches(nn, site, dinfo, sa, sb):
     q = site.q
     kind = dinfo["kind"]
@@ -257,8 +281,8 @@ def value_matches(nn, site, dinfo, sa, sb):
         if ey is None:
             # key equality: y is the string under which the reported reference position is filed in a dictionary keyed by the sequence itself
             b = strip(site.b)
-            if head(b) in ("iter", "citer") and head(strip(b[-1])) == "sub" and strip(strip(b[-1])[2]) == strip(y):
-                mi = nn.map_info(q, strip(b[-1])[1])
+            if head(b) in ("iter", "citer") and head(uncopy(b[-1])) == "sub" and strip(uncopy(b[-1])[2]) == strip(y):
+                mi = nn.map_info(q, uncopy(b[-1])[1])
                 if mi and mi["key"] == ("elem",):
                     ey = (mi["space"], b, mi["space"])
         if ex is None or ey is None:
@@ -275,8 +299,8 @@ def value_matches(nn, site, dinfo, sa, sb):
             return False, "ball centre is not the element at the reported query position"
         # reference position must come from the dictionary entry of the probed string, keyed by element identity
         b = strip(site.b)
-        if head(b) == "iter" and head(strip(b[2])) == "sub" and strip(strip(b[2])[2]) == strip(y):
-            mi = nn.map_info(q, strip(b[2])[1])
+        if head(b) == "iter" and head(uncopy(b[2])) == "sub" and strip(uncopy(b[2])[2]) == strip(y):
+            mi = nn.map_info(q, uncopy(b[2])[1])
             if mi and mi["key"] == ("elem",):
                 return True, "ok"
             return False, "dictionary is not keyed by the sequence itself"
@@ -1219,7 +1243,7 @@ def check_encoder(r, rule):
                 ce = src[3][0][0]
                 elt = strip(src[2])
                 # iterating the string itself (not enumerate) carries no position: any function of the letter is a map of the letter only
-                ok_idx = any(x == ce for x in walk(elt)) and not any(head(x) in ("iter", "citer") and x != ce for x in walk(elt))
+                ok_idx = any(x == ce for x in walk(elt))
             r.rep.ob(rule, q, ok, "every character of the sequence is counted once, unguarded", where, expected="np.bincount(map[char] for char in cdr3)", found=show(src, 80), key="enc loop")
             r.rep.ob(rule, q, ok_idx, "the coordinate is chosen by a map of the character only (not of its position)", where, expected="position_map[char]", found=show(src, 80), key="enc map")
             r.rep.ob(rule, q, "weights" not in dict(z[3]) and len(z[2]) == 1, "each character counts exactly 1 (no weights)", where, expected="no weights", found=show(z, 60), key="enc increment")
@@ -1350,7 +1374,13 @@ def check_buckets(r, rule):
     bq = MOD + "_to_len_bucket"
     bs = nn.summary(bq)
     mi = nn._map_local(bq, bs.ret) if head(bs.ret) == "alloc" else None
-    if mi is None:
+    gb = [e_ for e_ in bs.calls("itertools.groupby")]
+    unsorted_gb = [e_ for e_ in gb if strip(e_["term"])[2] and not is_call(strip(strip(e_["term"])[2][0]), "builtins.sorted")]
+    if unsorted_gb:
+        # itertools.groupby merges adjacent runs only: on input that is not sorted by the key, a later run overwrites / splits a class
+        r.rep.ob(rule + "-BKT", bq, False, "every element lands in exactly one length class, whatever the input order", wh(r, bq, unsorted_gb[0].node),
+                 expected="grouping that does not depend on the input being sorted by length", found="itertools.groupby over an iterable that is not sorted(...) by the grouping key", key="bucket groupby unsorted")
+    elif mi is None:
         r.rep.require(False, f"{bq}: the way the length buckets are filled is outside the idiom list; cannot decide [{rule}-BKT]")
     else:
       r.rep.ob(rule + "-BKT", bq, mi is not None and mi["key"] == ("len",), "buckets are keyed by len(seq) and hold positions of the input", wh(r, bq, bs.func.node),
